@@ -28,7 +28,6 @@ pred declaresLengthOfPayload(r *httpprot.Response) := (canon("Content-Length") i
 // response is labelled gzip; a response already labelled gzip is not touched
 func (ra *ResponseAdaptor) compress(resp *httpprot.Response) (res string)
   flag allocates
-  flag frame=unchecked
   requires resp != nil && resp.Response != nil && resp.Response.Header != nil
   modifies resp.payload, resp.stream, entries(resp.Response.Header), rdRem, gzFed, gzClosed, limUnder
   ensures already-labelled-gzip-is-left-alone: old(labelledGzip(resp)) ==> res == "" && resp.stream == old(resp.stream) && resp.payload == old(resp.payload) && (forall k string :: ((k in resp.Response.Header) <==> old(k in resp.Response.Header)) && resp.Response.Header[k] == old(resp.Response.Header[k]))
@@ -42,7 +41,6 @@ func (ra *ResponseAdaptor) compress(resp *httpprot.Response) (res string)
 // declared; streamed - wrapped in the decoder, no length declared; the label is removed; anything else is left alone
 func (ra *ResponseAdaptor) decompress(resp *httpprot.Response) (res string)
   flag allocates
-  flag frame=unchecked
   requires ra != nil && ra.spec != nil && resp != nil && resp.Response != nil && resp.Response.Header != nil
   modifies resp.payload, resp.stream, entries(resp.Response.Header), rdRem, limUnder
   ensures only-gzip-labelled-bodies-are-decoded: (ra.spec.Decompress != "gzip" || headerGet(ref(resp.Response.Header), "Content-Encoding") != "gzip") ==> res == "" && resp.stream == old(resp.stream) && resp.payload == old(resp.payload) && (forall k string :: ((k in resp.Response.Header) <==> old(k in resp.Response.Header)) && resp.Response.Header[k] == old(resp.Response.Header[k]))
@@ -53,9 +51,8 @@ func (ra *ResponseAdaptor) decompress(resp *httpprot.Response) (res string)
 
 func (ra *ResponseAdaptor) Handle(ctx *context.Context) (result string)
   flag allocates
-  flag frame=unchecked
   requires ra != nil && ra.spec != nil && ctx != nil
-  modifies gResp
+  modifies gResp, allof("elem<string>"), allof("ghost:.gzClosed"), allof("ghost:.gzFed"), allof("ghost:.limUnder"), allof("ghost:.rdRem"), allof("map<string,[]string>#card"), allof("map<string,[]string>#dom"), allof("map<string,[]string>#val#arr"), allof("map<string,[]string>#val#cap"), allof("map<string,[]string>#val#len"), allof("protocols/httpprot.Response.payload#arr"), allof("protocols/httpprot.Response.payload#cap"), allof("protocols/httpprot.Response.payload#len"), allof("protocols/httpprot.Response.stream")
   ensures replaced-body-is-well-framed: result == "" && gResp != 0 && len(ra.spec.Body) != 0 ==> wellFramed(ptr(gResp, "*httpprot.Response"))
   ghost at call[1] GetInputResponse: gResp := ifaceVal(resp)
 
